@@ -117,6 +117,9 @@ def dependents(gen_mod):
     return order
 
 
+FULL_RECHECK = [False]     # set per run: the thorough tier re-checks every dependent proof module
+
+
 def recheck(text, pyx=False):
     """compile the regenerated text and the refinement proofs in a scratch directory"""
     h = hashlib.sha256(text.encode()).hexdigest()[:16]
@@ -162,6 +165,10 @@ def recheck(text, pyx=False):
         out['backend_error'] = msg
         return out
     failed = set()
+    if not FULL_RECHECK[0] and os.environ.get('VERIF_GEN_RECHECK') != '1':
+        out['deferred'] = ('quick tier: the %d proof modules depending on the regenerated file are re-checked in the thorough tier '
+                           '(or with VERIF_GEN_RECHECK=1); here only the generated file is compiled and validated against the implementation' % len(todo))
+        return out
     for mod in todo:
         path = _mod_path(mod)
         imports = [l.split()[1] for l in open(path).read().split('\n') if l.startswith('import ')]
@@ -239,6 +246,7 @@ def validate(prop, tier, rng, lean_path=None, cap=None):
 def gen_tie(prop, tier, rng):
     """returns the `generated_model` section of the evidence"""
     t0 = time.time()
+    FULL_RECHECK[0] = (tier == 'thorough')
     res = {'translator': 'harness/py2lean.py', 'sources': ['pyspike/cython/python_backend.py', 'pyspike/cython/directionality_python_backend.py']}
     text, err = translate()
     if text is None:
@@ -262,7 +270,7 @@ def gen_tie(prop, tier, rng):
         lean_path = rc['lean_path']
         broken = [m for m, s in rc['modules'].items() if not (s == 'checks' or s == 'absent')]
         res['refinement_broken'] = broken
-        res['note'] = ('the source of the backend changed; refinement proofs re-checked against the regenerated model: %d of %d still check'
+        res['note'] = rc.get('deferred') or ('the source of the backend changed; refinement proofs re-checked against the regenerated model: %d of %d still check'
                        % (sum(1 for s in rc['modules'].values() if s == 'checks'), len(rc['modules'])))
     if prop in GEN_PROPS:
         try:
@@ -332,7 +340,7 @@ def gen_tie_pyx(tier, rng):
             return res
         lean_path = rc['lean_path']
         res['refinement_broken'] = [m for m, s_ in rc['modules'].items() if s_ != 'checks']
-        res['note'] = 'the .pyx sources changed; refinement proofs re-checked against the regenerated model: %d of %d still check' % (
+        res['note'] = rc.get('deferred') or 'the .pyx sources changed; refinement proofs re-checked against the regenerated model: %d of %d still check' % (
             sum(1 for s_ in rc['modules'].values() if s_ == 'checks'), len(rc['modules']))
     try:
         v = validate_pyx(tier, rng, lean_path)
@@ -403,7 +411,7 @@ def gen_tie_classes(tier, rng):
             return res
         lean_path = rc['lean_path']
         res['refinement_broken'] = [m for m, s_ in rc['modules'].items() if s_ != 'checks']
-        res['note'] = 'the class sources changed; refinement proofs re-checked against the regenerated model: %d of %d still check' % (
+        res['note'] = rc.get('deferred') or 'the class sources changed; refinement proofs re-checked against the regenerated model: %d of %d still check' % (
             sum(1 for s_ in rc['modules'].values() if s_ == 'checks'), len(rc['modules']))
     try:
         v = validate_classes(tier, rng, lean_path)
@@ -439,7 +447,7 @@ def _family(key, committed_path, label, sources, validate):
             return res
         lean_path = rc['lean_path']
         res['refinement_broken'] = [m for m, s_ in rc['modules'].items() if s_ != 'checks']
-        res['note'] = 'the source changed; proofs depending on the generated file re-checked against the regenerated text: %d of %d still check' % (
+        res['note'] = rc.get('deferred') or 'the source changed; proofs depending on the generated file re-checked against the regenerated text: %d of %d still check' % (
             sum(1 for s_ in rc['modules'].values() if s_ == 'checks'), len(rc['modules']))
     if validate is not None:
         try:
